@@ -652,9 +652,25 @@ func (t *paramTracer) traceParam(fn *ssa.Function, idx int, depth int) string {
 		t.memo[key] = "call chain too deep to trace (undecided)"
 		return t.memo[key]
 	}
-	if fn.Parent() != nil {
-		t.memo[key] = fmt.Sprintf("parameter of closure %s cannot be traced (undecided)", fname(fn))
-		return t.memo[key]
+	if par := fn.Parent(); par != nil {
+		// a closure that is called / started directly where it is made: go func(p []byte){...}(pkg)
+		n := 0
+		why := ""
+		eachInstr(par, func(in ssa.Instruction) {
+			c := callCommon(in)
+			if c == nil || why != "" {
+				return
+			}
+			if mc, ok := c.Value.(*ssa.MakeClosure); ok && mc.Fn == ssa.Value(fn) && idx < len(c.Args) {
+				n++
+				why = t.traceValue(par, c.Args[idx], depth+1, key)
+			}
+		})
+		if n == 0 {
+			why = fmt.Sprintf("parameter of closure %s cannot be traced (undecided)", fname(fn))
+		}
+		t.memo[key] = why
+		return why
 	}
 	sites := t.callSitesOf(fn)
 	if len(sites) == 0 {
